@@ -91,7 +91,9 @@ def gen(rnd):
     for gi, g in enumerate(gt[:2]):
         if est and rnd.random() < 0.6:      # close to an estimate so that pairs form (ground truths stay pairwise distinct)
             e = rnd.choice(est)
-            g.update(label=e["label"], x=e["x"] + rnd.choice([0.1, 0.6, 1.5]) + 0.03 * gi, y=e["y"] + 0.02 * gi)
+            # sometimes the same centre but a quarter turn: centre distance ~0 while the plane distance is large
+            g.update(label=e["label"], x=e["x"] + rnd.choice([0.0, 0.1, 0.6, 1.5]) + 0.03 * gi, y=e["y"] + 0.02 * gi,
+                     yaw=e.get("yaw", 0.0) + rnd.choice([0.0, 0.0, 1.5707963]))
     task = rnd.choice(["detection", "tracking", "fp_validation"])
     if task == "fp_validation":
         for g in gt:
